@@ -206,6 +206,7 @@ def run(ctx):
                                  {'task': got['fullname'], 'run_info': got['run_info'], 'expected': einfo})
         b.cleanup_module()
     k7_witness(ctx)
+    dotted_names_probe(ctx)
 
 
 def k7_witness(ctx):
@@ -234,6 +235,39 @@ def k7_witness(ctx):
     else:
         ctx.notes['K7'] = 'witness no longer fails: finding K7 appears repaired'
     b.cleanup_module()
+
+
+def dotted_names_probe(ctx):
+    """name mode, config names that differ only after a dot (`main.v1`, `main.v2`, `main`), FILE results: every result keeps its own run
+    info and log (`<config name>.run_info.yaml`, `<config name>.log`) — the run of one never rewrites the records of another"""
+    from tcv import gen, pipeline as pl
+    root = ctx.tmpdir() / 'dotted'
+    for k, kind in enumerate(['json', 'numpy', 'generated', 'json'][:ctx.n(2, 4)]):
+        spec = {'classes': {'K0': {'name': 'w', 'group': '', 'params': [{'name': 'x'}], 'inputs': [], 'kind': kind, 'run_args': ['x']}},
+                'files': {'main.v1.json': {'tasks': ['K0'], 'x': 1}, 'main.v2.json': {'tasks': ['K0'], 'x': 2}, 'main.json': {'tasks': ['K0'], 'x': 3}},
+                'main': 'main.v1.json'}
+        b = pl.materialize(spec, root / f'k{k}', modname=gen.fresh_modname())
+        b.module()
+        names = ['main.v1.json', 'main.v2.json', 'main.json'] if k % 2 == 0 else ['main.json', 'main.v2.json', 'main.v1.json']
+        case = {'probe': 'dotted config names, file results', 'kind': kind, 'order': names}
+        ctx.case(case); ctx.count('dotted-names-probe')
+        for m in names:
+            c, e = pl.build(b, root / f'k{k}' / 'd', main=m, parameter_mode=False)
+            if e:
+                ctx.notes['dotted-names'] = f'does not build: {e}'; break
+            _ = c.tasks['w'].value
+        for m in names:
+            t = pl.build(b, root / f'k{k}' / 'd', main=m, parameter_mode=False)[0].tasks['w']
+            info = t.run_info
+            want = m[:-len('.json')]
+            if not info or info.get('config', {}).get('name') != want:
+                ctx.fail('the run info beside a stored result describes the run of another config', case,
+                         {'config': want, 'run_info_config': info and info.get('config'), 'run_info_file': str(t._data_without_value.run_info_path.name)})
+                break
+            log = t.log or []
+            if not any(f'{want}' in str(line) or 'w' in str(line) for line in log):
+                ctx.fail('the log beside a stored result is empty or missing', case, {'config': want}); break
+        b.cleanup_module()
 
 
 def search(ctx, divergences):
